@@ -563,6 +563,12 @@ def survey(impl):
         for s in owner.sources:
             p = path + ["sources", s.name]
             reg(s, "source", block, p)
+            try:        # the section a source links to as metadata hangs below the block's `sources` group in the file
+                m = s.metadata
+            except Exception:
+                m = None
+            if m is not None:
+                alias(m, p + ["metadata"])
             sources(s, p, block)
 
     def sections(owner, path, cname):
@@ -776,10 +782,15 @@ class Gen5:
         r = rng.random()
         if r < 0.62:
             tgt, tag = self.pick(ents, kind, block=owner.block), "append/same-block"
-        elif r < 0.9:
+        elif r < 0.88:
             tgt, tag = self.pick(ents, kind, notblock=owner.block), "append/foreign"
-        else:
+        elif r < 0.94:
             tgt, tag = self.pick(ents), "append/any-kind"
+        else:
+            # an entity of another kind that something links to (the metadata section of a source / array / tag, an
+            # array a tag refers to ...), offered through one of those links or through its owner
+            linked = [k for k in ents.values() if k.kind != kind and len(k.paths) > 1]
+            tgt, tag = (rng.choice(linked) if linked else self.pick(ents)), "append/linked-wrong-kind"
         if tgt is None:
             return
         op = owner.paths[0]
